@@ -9,8 +9,10 @@ import (
 	"runtime/debug"
 
 	"verif/internal/c04"
+	"verif/internal/c08"
 	"verif/internal/c11"
 	"verif/internal/c15"
+	"verif/internal/c19"
 	"verif/internal/mach"
 	"verif/internal/wire"
 )
@@ -34,6 +36,10 @@ func main() {
 		o = c11.Run(*seed, *n, 300)
 	case "c04":
 		o = c04.Run(*seed, *n, 30)
+	case "c08":
+		o = c08.Run(*seed, *n)
+	case "c19":
+		o = c19.Run(*seed, *n)
 	case "c15":
 		o = c15.Run(*seed, *n)
 	case "mach":
